@@ -33,12 +33,12 @@ class RtResult:
                 self.done = True
 
 
-def run_rt(cc: str, opt: str, big_endian: bool, sanitize: bool = False) -> RtResult:
+def run_rt(cc: str, opt: str, big_endian: bool, sanitize: bool = False, announce: str = "BP_BIG_ENDIAN") -> RtResult:
     d = env.scratch_dir("rt")
     exe = os.path.join(d, "rt")
     flags = [opt, "-w", "-std=gnu11"]
     if big_endian:
-        flags += ["-DBP_BIG_ENDIAN=1", "-DRT_BE=1"]
+        flags += [*cexec.BE_ANNOUNCE[announce], "-DRT_BE=1"]
     if sanitize:
         flags += cexec.SAN_FLAGS
     cmd = [cc, *flags, "-I", env.CLIB_DIR, RT_SRC, os.path.join(env.CLIB_DIR, "bitproto.c"), "-o", exe]
